@@ -1,6 +1,6 @@
 """Replay C20 counterexamples against the REAL pipeline: real pysam / samtools sort+index on a real BAM
 (/repo/data/mini_nla_test.bam), with one fault injected at the step the model named."""
-import os, shutil, tempfile, collections
+import os, shutil, sys, tempfile, collections
 
 
 class _Inject(Exception):
@@ -190,7 +190,7 @@ def replay(args, outdir):
         return dict(reproduced=False, note='stub model does not reproduce')
     kind = clause.split('@')[0]
     if lemma == 'L3_failed_rerun':
-        return _real_rerun(a, clause, crashed_at)
+        return _real_rerun(a, clause, crashed_at, trace[:-1].count(crashed_at) if crashed_at else 0)
     if lemma != 'L1_single_process':
         # multi-process driver: replay = concrete run of the real driver code over the step model (pool, htslib merge not replayable here)
         return dict(reproduced=True, signature='%s:%s' % (lemma, clause), what='multi-process driver: %s; steps %r' % (clause, trace))
@@ -215,9 +215,23 @@ def replay(args, outdir):
                      % ('kill' if a['kill'] else 'failure', crashed_at, occurrence, status, complete))
 
 
-def _real_rerun(a, clause, crashed_at):
-    """real command line twice onto the same -o: a good run, then a run that fails during set-up (unknown method)"""
+def _real_rerun(a, clause, crashed_at, occurrence=0):
+    """real command line twice onto the same -o: a good run, then a run that fails during set-up: at the model's crash step
+    (input verification, removal of the old output, opening the input) when there is one, else through the unknown method"""
     import pysam
+    import singlecellmultiomics.universalBamTagger.bamtagmultiome as BT
+    seen = [0]
+
+    def faulty(orig):
+        def f(*x, **k):
+            if crashed_at == 'open_input' and sys._getframe(1).f_globals.get('__name__') != BT.__name__:
+                return orig(*x, **k)  # the model's open_input step is the open made by the tagger itself, not the one inside verify_and_fix_bam
+            seen[0] += 1
+            if seen[0] - 1 == occurrence:
+                raise OSError(5, 'injected fault at %s' % crashed_at)
+            return orig(*x, **k)
+        return f
+    target = {'verify_input': (BT, 'verify_and_fix_bam'), 'remove_old_output': (os, 'remove'), 'open_input': (pysam, 'AlignmentFile')}.get(crashed_at)
     from singlecellmultiomics.universalBamTagger.bamtagmultiome import run_multiome_tagging_cmd
     d = tempfile.mkdtemp(prefix='c20r', dir=os.environ.get('VERIF_SCRATCH') or None)
     try:
@@ -228,16 +242,22 @@ def _real_rerun(a, clause, crashed_at):
         run_multiome_tagging_cmd([inp, '-method', 'nla', '-o', out])
         st = out.replace('.bam', '.status.txt')
         first = open(st).read()
+        saved = getattr(target[0], target[1]) if target else None
         try:
+            if target:
+                setattr(target[0], target[1], faulty(saved))
             run_multiome_tagging_cmd([inp, '-method', 'bogus_method', '-o', out])
             return dict(reproduced=False, note='second run did not fail')
         except Exception:
             pass
+        finally:
+            if target:
+                setattr(target[0], target[1], saved)
         status = open(st).read()
         exists = os.path.exists(out) and os.path.exists(out + '.bai')
     finally:
         shutil.rmtree(d, ignore_errors=True)
     if status == 'Reached end. All ok!\n' and not exists:
         return dict(reproduced=True, signature='L3_failed_rerun:stale_ok_status_output_gone',
-                    what='real CLI: successful run (status %r), then a run failing in set-up: status file still says %r while the output BAM was removed' % (first, status))
+                    what='real CLI: successful run (status %r), then a run failing in set-up (%s): status file still says %r while the output BAM was removed' % (first, crashed_at or 'unknown method', status))
     return dict(reproduced=False, note='real CLI: status %r output exists %r' % (status, exists))
